@@ -66,7 +66,10 @@ class DerivationPath(EmbitBase):
 
 
 class PSBTScope(EmbitBase):
-    def __init__(self, unknown: dict = {}):
+    def __init__(self, unknown: dict = None):
+        # a dict written as a default value would be shared by all scopes
+        if unknown is None:
+            unknown = {}
         self.unknown = unknown
         self.parse_unknowns()
 
@@ -117,7 +120,9 @@ class InputScope(PSBTScope):
     TX_CLS = Transaction
     TXOUT_CLS = TransactionOutput
 
-    def __init__(self, unknown: dict = {}, vin=None, compress=CompressMode.KEEP_ALL):
+    def __init__(self, unknown: dict = None, vin=None, compress=CompressMode.KEEP_ALL):
+        if unknown is None:
+            unknown = {}
         self.compress = compress
         self.txid = None
         self.vout = None
@@ -513,7 +518,9 @@ class InputScope(PSBTScope):
 
 
 class OutputScope(PSBTScope):
-    def __init__(self, unknown: dict = {}, vout=None, compress=CompressMode.KEEP_ALL):
+    def __init__(self, unknown: dict = None, vout=None, compress=CompressMode.KEEP_ALL):
+        if unknown is None:
+            unknown = {}
         self.compress = compress
         self.value = None
         self.script_pubkey = None
@@ -679,7 +686,9 @@ class PSBT(EmbitBase):
     PSBTOUT_CLS = OutputScope
     TX_CLS = Transaction
 
-    def __init__(self, tx=None, unknown={}, version=None):
+    def __init__(self, tx=None, unknown=None, version=None):
+        if unknown is None:
+            unknown = {}
         self.version = version  # None for v0
         self.inputs = []
         self.outputs = []
